@@ -90,7 +90,7 @@ def random_cut_case(rng, max_heavy, kinds=('$', '><'), max_parts=6, mol_kw=None,
                            'explicit_single': rng.choice([0.0, 0.1])}
     else:
         keep = False
-        g = M.gen_molecule(rng, max_heavy=max_heavy, p_ring=rng.choice([0.25, 0.5]), **(mol_kw or {}))
+        g = M.gen_molecule(rng, max_heavy=max_heavy, p_ring=rng.choice([0.25, 0.5]), **dict(dict(p_thio=0.3), **(mol_kw or {})))
         # now and then many small fragments: ten or more coarse nodes give two-digit keys, names F1 / F10 ...
         cap = max_parts if rng.random() < 0.85 else max(max_parts, 14)
         nparts = rng.randint(1, min(len(g), cap))
